@@ -44,6 +44,7 @@ type Conn struct {
 	fromReceived bool
 	recipients   []string
 	didAuth      bool
+	closed       bool // set by Close, protected by locker
 }
 
 func newConn(c net.Conn, s *Server) *Conn {
@@ -169,6 +170,8 @@ func (c *Conn) setSession(session Session) {
 func (c *Conn) Close() error {
 	c.locker.Lock()
 	defer c.locker.Unlock()
+
+	c.closed = true
 
 	if c.bdatPipe != nil {
 		c.bdatPipe.CloseWithError(ErrDataReset)
@@ -1281,6 +1284,15 @@ func (c *Conn) writeError(code int, enhCode EnhancedCode, err error) {
 
 // Reads a line of input
 func (c *Conn) readLine() (string, error) {
+	// Once the connection has been closed (QUIT, too many errors, panic,
+	// Server.Close) nothing that is still buffered must be executed.
+	c.locker.Lock()
+	closed := c.closed
+	c.locker.Unlock()
+	if closed {
+		return "", net.ErrClosed
+	}
+
 	if c.server.ReadTimeout != 0 {
 		if err := c.conn.SetReadDeadline(time.Now().Add(c.server.ReadTimeout)); err != nil {
 			return "", err
